@@ -1,11 +1,16 @@
 package main
 
 import (
+	"context"
 	"fmt"
+	"net/http"
 	"net/url"
 	"strings"
 
 	"github.com/getkin/kin-openapi/openapi3"
+	"github.com/getkin/kin-openapi/routers"
+	"github.com/getkin/kin-openapi/routers/gorillamux"
+	"github.com/getkin/kin-openapi/routers/legacy"
 )
 
 // Server matching on its own: Server.MatchRawURL, Server.ParameterNames and Servers.MatchURL of the
@@ -142,4 +147,86 @@ func c09SrvDirected() []C09SrvCase {
 	add([]string{"{all}"}, "anything", "/x", "a/b")
 	add([]string{"https://example.com/my%20api"}, "https://example.com/my%20api/p", "https://example.com/my api/p")
 	return out
+}
+
+// Servers declared on a path item replace the document's servers for that path and for no other
+// (Go side): a template is routed under its own server list only.
+func c09PathServers(meta *Meta) {
+	type obs struct{ kind int; tpl string }
+	find := func(r routers.Router, method, target string) obs {
+		u, err := url.Parse(target)
+		if err != nil {
+			return obs{4, ""}
+		}
+		req := &http.Request{Method: method, URL: u, Header: http.Header{}, Host: u.Host}
+		var route *routers.Route
+		var ferr error
+		if p := catchPanic(func() { route, _, ferr = r.FindRoute(req) }); p != nil {
+			return obs{3, fmt.Sprint(p)}
+		}
+		if ferr != nil {
+			return obs{1, ""}
+		}
+		if route == nil {
+			return obs{4, "nil route without error"}
+		}
+		return obs{0, route.Path}
+	}
+	docServers := []string{"https://api.example.com/v1", "/base"}
+	pathServers := []string{"https://other.example.com/x", "/special"}
+	for si := range docServers {
+		for _, own := range []string{"/zeta", "/omega", "/alpha", "/items/{id}"} {
+			doc := &openapi3.T{OpenAPI: "3.0.0", Info: &openapi3.Info{Title: "t", Version: "1"}, Paths: openapi3.NewPaths(), Servers: openapi3.Servers{{URL: docServers[si]}}}
+			templates := []string{"/zeta", "/omega", "/alpha", "/items/{id}"}
+			for _, t := range templates {
+				op := openapi3.NewOperation()
+				desc := "ok"
+				op.Responses = openapi3.NewResponses()
+				op.Responses.Set("200", &openapi3.ResponseRef{Value: &openapi3.Response{Description: &desc}})
+				item := &openapi3.PathItem{Get: op}
+				if strings.Contains(t, "{id}") {
+					item.Parameters = openapi3.Parameters{{Value: &openapi3.Parameter{Name: "id", In: "path", Required: true, Schema: openapi3.NewStringSchema().NewRef()}}}
+				}
+				if t == own {
+					item.Servers = openapi3.Servers{{URL: pathServers[si]}}
+				}
+				doc.Paths.Set(t, item)
+			}
+			if doc.Validate(context.Background()) != nil {
+				continue
+			}
+			gr, err1 := gorillamux.NewRouter(doc)
+			lr, err2 := legacy.NewRouter(doc)
+			if err1 != nil || err2 != nil {
+				continue
+			}
+			for _, t := range templates {
+				path := strings.ReplaceAll(t, "{id}", "7")
+				for _, under := range []string{"document", "path-item"} {
+					base := docServers[si]
+					if under == "path-item" {
+						base = pathServers[si]
+					}
+					// the template answers under its own list if it has one, under the document's otherwise
+					want := (t == own) == (under == "path-item")
+					desc := map[string]any{"document_server": docServers[si], "path_item_server": pathServers[si], "declared_on": own, "request": "GET " + base + path}
+					meta.Histogram["path-item server cases"]++
+					for name, r := range map[string]routers.Router{"gorilla": gr, "legacy": lr} {
+						o := find(r, "GET", base+path)
+						got := o.kind == 0 && o.tpl == t
+						if o.kind >= 3 {
+							meta.GoViolation = append(meta.GoViolation, map[string]any{"signature": "path-servers:" + name + ":panic-or-nil-route", "cases": []any{desc}, "go_observation": o.tpl, "judgement": name + ": " + o.tpl})
+						} else if got != want {
+							sig := "path-servers:" + name + ":template-routed-under-a-server-list-that-is-not-its-own"
+							if want {
+								sig = "path-servers:" + name + ":template-not-routed-under-its-own-server-list"
+							}
+							meta.GoViolation = append(meta.GoViolation, map[string]any{"signature": sig, "cases": []any{desc}, "go_observation": fmt.Sprintf("routed=%v (template %q)", o.kind == 0, o.tpl),
+								"judgement": fmt.Sprintf("%s router: %s %s: routed to %q, expected routed=%v", name, "GET", base+path, o.tpl, want)})
+						}
+					}
+				}
+			}
+		}
+	}
 }
